@@ -216,6 +216,20 @@ def addPtZnxInto (env : Env) (dst a : Ct) (pt : Pt) : Res Ct :=
 
 def addPtZnxAssign (env : Env) (dst : Ct) (pt : Pt) : Res Ct := ptAlign env dst pt
 
+/-- building a ZNX plaintext operand: `CKKSPlaintextVecZnx::alloc(n, base2k, meta)` followed by
+`CKKSPlaintextVecRnx::to_znx` (`ensure!(log_delta <= max_log_delta_prec())`; zero precision makes
+`encode_vec_*` evaluate `size - 1` with `size = 0`).  `none` = built. -/
+def ptBuild (env : Env) (pt : Pt) (dst : Ct) : Option (Res Ct) :=
+  if pt.md.logDelta > env.maxLogDeltaPrec then some (.err .other dst)
+  else if pt.md.effK = 0 then some (.panic .encodeZero)
+  else none
+
+/-- run `f` once the plaintext operand has been built -/
+def withPt (env : Env) (pt : Pt) (dst : Ct) (f : Res Ct) : Res Ct :=
+  match ptBuild env pt dst with
+  | some r => r
+  | none => f
+
 /-- `CKKSPlaintextVecRnx::to_znx` into a scratch plaintext of meta `prec` and the ciphertext radix:
 `none` = conversion fine; the error is the `ensure!(log_delta <= max_log_delta_prec())`; zero
 precision makes `encode_vec_*` evaluate `size - 1` with `size = 0`. -/
@@ -564,11 +578,11 @@ def alignStep (env : Env) (pool : Pool) (a b : Nat) : Res Pool :=
 
 /-- one API call on the pool -/
 def stepR (env : Env) (pool : Pool) : Op → Res Pool
-  | .enc d k pt => op1 pool d (fun c => encrypt env c k pt)
+  | .enc d k pt => op1 pool d (fun c => withPt env pt c (encrypt env c k pt))
   | .addCt d a b => op3 pool d a b (addCtInto env)
   | .addCtAssign d a => op2 pool d a (addCtAssign env)
-  | .addPtZnx d a pt => op2 pool d a (fun cd ca => addPtZnxInto env cd ca pt)
-  | .addPtZnxAssign d pt => op1 pool d (fun cd => addPtZnxAssign env cd pt)
+  | .addPtZnx d a pt => op2 pool d a (fun cd ca => withPt env pt cd (addPtZnxInto env cd ca pt))
+  | .addPtZnxAssign d pt => op1 pool d (fun cd => withPt env pt cd (addPtZnxAssign env cd pt))
   | .addPtRnx d a prec => op2 pool d a (fun cd ca => addPtRnxInto env cd ca prec)
   | .addPtRnxAssign d prec => op1 pool d (fun cd => addPtRnxAssign env cd prec)
   | .addCstRnx d a prec re im => op2 pool d a (fun cd ca => addCstRnxInto env cd ca prec re im)
@@ -581,14 +595,14 @@ def stepR (env : Env) (pool : Pool) : Op → Res Pool
   | .mulAssign d a => op2 pool d a (fun cd ca => mulInto env cd cd ca)
   | .square d a => op2 pool d a (squareInto env)
   | .squareAssign d => op1 pool d (fun cd => squareInto env cd cd)
-  | .mulPtZnx d a pt => op2 pool d a (fun cd ca => mulPtZnxInto env cd ca pt)
-  | .mulPtZnxAssign d pt => op1 pool d (fun cd => mulPtZnxInto env cd cd pt)
+  | .mulPtZnx d a pt => op2 pool d a (fun cd ca => withPt env pt cd (mulPtZnxInto env cd ca pt))
+  | .mulPtZnxAssign d pt => op1 pool d (fun cd => withPt env pt cd (mulPtZnxInto env cd cd pt))
   | .mulPtRnx d a prec => op2 pool d a (fun cd ca => mulPtRnxInto env cd ca prec)
   | .mulPtRnxAssign d prec => op1 pool d (fun cd => mulPtRnxInto env cd cd prec)
   | .mulCstRnx d a prec re im => op2 pool d a (fun cd ca => mulCstRnx env cd ca prec re im false)
   | .mulCstRnxAssign d prec re im => op1 pool d (fun cd => mulCstRnx env cd cd prec re im true)
   | .mulAddCt d a b => op3 pool d a b (mulAddCt env)
-  | .mulAddPtZnx d a pt => op2 pool d a (fun cd ca => mulAddPtZnx env cd ca pt)
+  | .mulAddPtZnx d a pt => op2 pool d a (fun cd ca => withPt env pt cd (mulAddPtZnx env cd ca pt))
   | .mulAddPtRnx d a prec => op2 pool d a (fun cd ca => mulAddPtRnx env cd ca prec)
   | .mulAddCstRnx d a prec re im => op2 pool d a (fun cd ca => mulAddCstRnx env cd ca prec re im)
   | .mulPow2 d a bits => op2 pool d a (fun cd ca => mulPow2Into env cd ca bits)
